@@ -95,43 +95,12 @@ func Handle(c *core.Check, st core.State) {
 	}
 	nproj, nperr := project(nf.Body, schema)
 	nseq := sequence(nf.Body, schema)
+	nat := nativeSide{val: nval, diags: ndiags, proj: nproj, perr: nperr, seq: nseq}
 	for variant := 0; variant < 5; variant++ {
 		js := dec.JSON(items, variant)
 		vec := map[string]any{"state": st.Raw, "case": desc, "json": js, "native": src}
-		c.Count("evaluations", 1)
-		jf, jd := hcljson.Parse([]byte(js), "b.json")
-		if jd.HasErrors() {
-			c.Violation("json-encoding-rejected", fmt.Sprintf("%s: JSON encoding %s (form %d) is rejected: %s", desc, js, variant, jd.Error()), vec)
+		if !compareJSON(c, sn, spec, schema, nat, desc, js, fmt.Sprintf("form %d", variant), variant == 0 || variant == 4, vec) {
 			return
-		}
-		var jval cty.Value
-		var jdiags hcl.Diagnostics
-		if rec, p := core.Guard(func() { jval, jdiags = hcldec.Decode(jf.Body, spec, nil) }); p {
-			c.Violation("panic/json/"+sn.K, fmt.Sprintf("%s: Decode of the JSON form %s panicked: %v", desc, js, rec), vec)
-			return
-		}
-		if ndiags.HasErrors() != jdiags.HasErrors() {
-			c.Violation(fmt.Sprintf("errorness-differs/native=%v/%s", ndiags.HasErrors(), sn.K),
-				fmt.Sprintf("%s: native errors=%v %v, JSON form %s errors=%v %v", desc, ndiags.HasErrors(), summaries(ndiags), js, jdiags.HasErrors(), summaries(jdiags)), vec)
-			return
-		}
-		if !ndiags.HasErrors() && !nval.RawEquals(jval) {
-			c.Violation("value-differs/"+sn.K, fmt.Sprintf("%s: native decodes to %s, JSON form %s decodes to %s", desc, e1.Describe(nval), js, e1.Describe(jval)), vec)
-			return
-		}
-		jproj, jperr := project(jf.Body, schema)
-		if nperr != jperr || (!nperr && nproj != jproj) {
-			c.Violation("content-differs/"+sn.K, fmt.Sprintf("%s: native content %s (errors=%v), JSON form %s content %s (errors=%v)", desc, nproj, nperr, js, jproj, jperr), vec)
-			return
-		}
-		// forms 0 and 4 keep every item in source order (one property per item), so the whole block
-		// sequence, across block types, must be the native one; the grouping forms can only keep
-		// the order within a type
-		if variant == 0 || variant == 4 {
-			if jseq := sequence(jf.Body, schema); !nperr && jseq != nseq {
-				c.Violation("block-sequence-differs/"+sn.K, fmt.Sprintf("%s: native block sequence [%s], JSON form %s gives [%s]", desc, nseq, js, jseq), vec)
-				return
-			}
 		}
 	}
 	if len(items) > 0 {
@@ -148,4 +117,102 @@ func summaries(ds hcl.Diagnostics) []string {
 		out = append(out, d.Summary)
 	}
 	return out
+}
+
+type nativeSide struct {
+	val   cty.Value
+	diags hcl.Diagnostics
+	proj  string
+	perr  bool
+	seq   string
+}
+
+// compareJSON applies the C03 relation to one JSON encoding of the configuration. keepsOrder says
+// whether the encoding keeps the order of blocks of different types. Returns false after a violation.
+func compareJSON(c *core.Check, sn *dec.SpecNode, spec hcldec.Spec, schema *hcl.BodySchema, nat nativeSide, desc, js, form string, keepsOrder bool, vec map[string]any) bool {
+	c.Count("evaluations", 1)
+	jf, jd := hcljson.Parse([]byte(js), "b.json")
+	if jd.HasErrors() {
+		c.Violation("json-encoding-rejected", fmt.Sprintf("%s: JSON encoding %s (%s) is rejected: %s", desc, js, form, jd.Error()), vec)
+		return false
+	}
+	var jval cty.Value
+	var jdiags hcl.Diagnostics
+	if rec, p := core.Guard(func() { jval, jdiags = hcldec.Decode(jf.Body, spec, nil) }); p {
+		c.Violation("panic/json/"+sn.K, fmt.Sprintf("%s: Decode of the JSON form %s panicked: %v", desc, js, rec), vec)
+		return false
+	}
+	if nat.diags.HasErrors() != jdiags.HasErrors() {
+		c.Violation(fmt.Sprintf("errorness-differs/native=%v/%s", nat.diags.HasErrors(), sn.K),
+			fmt.Sprintf("%s: native errors=%v %v, JSON form %s errors=%v %v", desc, nat.diags.HasErrors(), summaries(nat.diags), js, jdiags.HasErrors(), summaries(jdiags)), vec)
+		return false
+	}
+	if !nat.diags.HasErrors() && !nat.val.RawEquals(jval) {
+		c.Violation("value-differs/"+sn.K, fmt.Sprintf("%s: native decodes to %s, JSON form %s decodes to %s", desc, e1.Describe(nat.val), js, e1.Describe(jval)), vec)
+		return false
+	}
+	jproj, jperr := project(jf.Body, schema)
+	if nat.perr != jperr || (!nat.perr && nat.proj != jproj) {
+		c.Violation("content-differs/"+sn.K, fmt.Sprintf("%s: native content %s (errors=%v), JSON form %s content %s (errors=%v)", desc, nat.proj, nat.perr, js, jproj, jperr), vec)
+		return false
+	}
+	// an encoding with one property per item keeps every item in source order, so the whole block
+	// sequence, across block types, must be the native one; the grouping forms can only keep the
+	// order within a type
+	if keepsOrder {
+		if jseq := sequence(jf.Body, schema); !nat.perr && jseq != nat.seq {
+			c.Violation("block-sequence-differs/"+sn.K, fmt.Sprintf("%s: native block sequence [%s], JSON form %s gives [%s]", desc, nat.seq, js, jseq), vec)
+			return false
+		}
+	}
+	return true
+}
+
+// HandleEnc replays one MC_JsonEnc vector: (spec, body, encoding choice, document tree of JsonEnc.tla).
+func HandleEnc(c *core.Check, st core.State) {
+	if tla.Str(st.Vars["phase"]) != "enc" {
+		return
+	}
+	var sn *dec.SpecNode
+	var items []dec.Item
+	var js string
+	if rec, p := core.Guard(func() {
+		sn = dec.DecodeSpec(st.Vars["spec"])
+		items = dec.DecodeBody(st.Vars["body"])
+		js = dec.PrintDoc(st.Vars["doc"])
+	}); p {
+		c.Broken("decode: %v", rec)
+		return
+	}
+	ch := tla.Rec(st.Vars["ch"])
+	form := fmt.Sprintf("body=%s grp=%s lab=%s cmt=%d", tla.Str(ch["body"]), tla.Str(ch["grp"]), tla.Str(ch["lab"]), tla.Int(ch["cmt"]))
+	c.Count("vectors_replayed", 1)
+	src := dec.Native(items, "")
+	desc := fmt.Sprintf("spec %s on body [%s]", sn.String(), strings.ReplaceAll(strings.TrimSpace(src), "\n", "; "))
+	nf, pd := hclsyntax.ParseConfig([]byte(src), "b.hcl", hcl.InitialPos)
+	if pd.HasErrors() {
+		c.Broken("generated body does not parse: %q: %s", src, pd.Error())
+		return
+	}
+	var spec hcldec.Spec
+	if rec, p := core.Guard(func() { spec = sn.Build() }); p {
+		c.Broken("spec build panicked: %v", rec)
+		return
+	}
+	schema := hcldec.ImpliedSchema(spec)
+	var nat nativeSide
+	if _, p := core.Guard(func() { nat.val, nat.diags = hcldec.Decode(nf.Body, spec, nil) }); p {
+		c.Count("native_panic_skipped", 1)
+		return
+	}
+	nat.proj, nat.perr = project(nf.Body, schema)
+	nat.seq = sequence(nf.Body, schema)
+	vec := map[string]any{"state": st.Raw, "case": desc, "json": js, "native": src, "encoding": form}
+	if !compareJSON(c, sn, spec, schema, nat, desc, js, form, tla.Str(ch["grp"]) == "dup", vec) {
+		return
+	}
+	c.Nontrivial(js)
+	if len(items) >= 2 && tla.Str(ch["grp"]) != "dup" {
+		c.Sample(map[string]any{"case": desc, "encoding": form, "json": js})
+	}
 }
